@@ -86,8 +86,16 @@ def run(ctx):
 
 
 def search(ctx):
-    for _ in range(30):
-        c, opts = gen(ctx, ctx.rng)
+    rng = ctx.rng
+    for k in range(40):
+        if k % 2 == 0:
+            # intensity-dependent noise on a strongly attenuating fibre, many reference locations and times (small parameter part):
+            # the regime in which tmpw_var sits closest to its lower bound
+            c = fibre.make_case(rng, double=True, nx=rng.randint(30, 60), nt=rng.randint(3, 5), n_baths=2, n_stretch=4, nta=0, n_match=0,
+                                noise=0.01, var_kind="callable", atten=rng.choice([1.0, 1.5, 2.0]))
+            opts = {}
+        else:
+            c, opts = gen(ctx, rng)
         run_one(ctx, c, opts, known())
         if ctx.failures:
             return
